@@ -157,3 +157,123 @@ def assignment_pairs(u, fn, with_helpers=True):
             for a in assignments(h):
                 add(a, sub, c)
     return out
+
+
+# ---- feasible-path search with remembered branch outcomes --------------------------------------------------------------
+
+def _cond_key(e):
+    """(text of the tested value, negated?) with NULL/zero comparisons normalised: x == NULL, !x -> (x, True)"""
+    e = strip_casts(e)
+    neg = False
+    while e.get('k') == 'un' and e['op'] == '!':
+        e = strip_casts(e['e'])
+        neg = not neg
+    if e.get('k') == 'bin' and e['op'] in ('==', '!='):
+        for (a, b) in ((e['l'], e['r']), (e['r'], e['l'])):
+            if is_null_const(b) or const_val(b) == 0:
+                return expr_str(strip_casts(a)), (e['op'] == '==') != neg
+    return expr_str(e), neg
+
+
+def _mentions(cond, name):
+    import re
+    return re.search(r'(?<![A-Za-z0-9_>.])' + re.escape(name) + r'(?![A-Za-z0-9_])', cond) is not None
+
+
+def feasibly_reaches(cfg, fn, target, barrier):
+    """Is `target` reachable from the entry on a path that never takes an edge for which barrier(node, label) is true and whose
+    branch outcomes do not contradict each other (the same value tested again with no store to it in between has the same
+    truth)?  A purely syntactic notion of feasibility: it only removes paths, so "not reachable" is sound to rely on when the
+    plain graph says reachable only because of such correlated tests."""
+    from ..dataflow import node_effects
+    work = [(cfg.entry.id, frozenset())]
+    seen = set()
+    steps = 0
+    while work:
+        nid, facts = work.pop()
+        if (nid, facts) in seen:
+            continue
+        seen.add((nid, facts))
+        steps += 1
+        if steps > 100000:
+            raise AnalysisBroken('path search in %s does not finish' % fn.name)
+        if nid == target:
+            return True
+        node = cfg.nodes[nid]
+        fd = dict(facts)
+        changed = set()
+        for ev in node_effects(node):
+            if ev.kind in ('store', 'incdec') and ev.lhs is not None:
+                changed.add(expr_str(strip_casts(ev.lhs)))
+            if ev.kind == 'declinit':
+                changed.add(ev.lhs.get('n'))
+            if ev.kind == 'call':
+                changed.add('(')
+        for k in list(fd):
+            if any(ch == k or (ch != '(' and _mentions(k, ch)) or (ch == '(' and ('(' in k or '->' in k or '[' in k or '*' in k)) for ch in changed):
+                del fd[k]
+        for (y, label) in cfg.succ[nid]:
+            if barrier(node, label):
+                continue
+            f2 = dict(fd)
+            if label is not None and label[0] in ('T', 'F') and node.kind == 'branch':
+                k, neg = _cond_key(label[1])
+                val = (label[0] == 'T') != neg
+                if k in f2 and f2[k] != val:
+                    continue
+                f2[k] = val
+            work.append((y, frozenset(f2.items())))
+    return False
+
+
+# ---- locals that cache a field ---------------------------------------------------------------------------------------
+
+def field_cache(u, fn, field=None):
+    """{decl id: X->f expression} for locals with exactly one definition that is not a constant, that definition being a plain read
+    X->f of a parameter or never-reassigned local X, in a function that never stores to ->f of anything (so the cached value is
+    what a later read of X->f would give).  `int type = cJSON_Invalid; ... type = item->type;` qualifies."""
+    # stores to the same field through the same base variable (a store through another pointer is a store to another object as
+    # far as the users of this helper are concerned: the copy under construction, a fresh node)
+    stored = {(expr_str(strip_casts(strip_casts(a['l'])['b'])), strip_casts(a['l'])['f']) for a in fn.nodes()
+              if a.get('k') == 'bin' and a.get('op') in ASSIGN_OPS and strip_casts(a['l']).get('k') == 'mem'}
+    stored |= {(expr_str(strip_casts(strip_casts(x['e'])['b'])), strip_casts(x['e'])['f']) for x in fn.nodes()
+               if x.get('k') == 'un' and x.get('op') in ('post++', 'post--', 'pre++', 'pre--') and strip_casts(x['e']).get('k') == 'mem'}
+    out = {}
+    for d in fn.locals():
+        defs = []
+        if 'init' in d and const_val(d['init']) is None and not d['init'].get('null'):
+            defs.append(d['init'])
+        ok = True
+        for a in fn.nodes():
+            if a.get('k') == 'bin' and a.get('op') in ASSIGN_OPS and strip_casts(a['l']).get('k') == 'ref' and strip_casts(a['l'])['d'] == d['d']:
+                if a['op'] != '=':
+                    ok = False
+                defs.append(a['r'])
+            if a.get('k') == 'un' and a.get('op') in ('post++', 'post--', 'pre++', 'pre--', '&') and strip_casts(a['e']).get('k') == 'ref' and \
+                    strip_casts(a['e'])['d'] == d['d']:
+                ok = False
+        if not ok or len(defs) != 1:
+            continue
+        r = strip_casts(defs[0])
+        if r.get('k') != 'mem' or not r.get('arrow') or (field is not None and r['f'] != field) or \
+                (expr_str(strip_casts(r['b'])), r['f']) in stored:
+            continue
+        b = strip_casts(r['b'])
+        if b.get('k') != 'ref' or b.get('dk') not in ('param', 'local'):
+            continue
+        out[d['d']] = r
+    return out
+
+
+def expand_cached(e, cache):
+    """e with references to field-caching locals replaced by the field reads they stand for (a shallow copy; ids of the replaced
+    nodes are those of the reads)"""
+    if isinstance(e, list):
+        return [expand_cached(x, cache) for x in e]
+    if not isinstance(e, dict):
+        return e
+    if e.get('k') == 'ref' and e.get('d') in cache:
+        m = dict(cache[e['d']])
+        m['ty'] = e.get('ty', m.get('ty'))
+        return m
+    return {k: expand_cached(v, cache) for k, v in e.items()}
